@@ -376,3 +376,34 @@ def dispatcher(ctx):
     last = u.node.body[-1]
     ctx.ob(isinstance(last, ast.Return) and is_name(last.value, target), u, 'an accepted scalar / type / equality match returns the target')
     ctx.floor(16)
+
+
+@rule('C09.14')
+def regex_target_types(ctx):
+    """Regex accepts a target exactly when ``type(target) in _RE_TYPES``; re works on both text
+    types, so the table must list str and bytes (a bytes pattern on a conforming bytes target is a
+    match, not a type rejection)"""
+    p = ctx.program
+    mod = p.modules['glom.matching']
+    have = set()
+    n = 0
+    for st in ast.walk(mod.tree):
+        tg = None
+        if isinstance(st, ast.Assign) and any(is_name(t, '_RE_TYPES') for t in st.targets):
+            tg = st.value
+        elif isinstance(st, ast.AugAssign) and is_name(st.target, '_RE_TYPES') and isinstance(st.op, ast.Add):
+            tg = st.value
+        if tg is None:
+            continue
+        n += 1
+        for x in ast.walk(tg):
+            if isinstance(x, ast.Name) and x.id in ('str', 'bytes'):
+                have.add(x.id)
+    ctx.require(n >= 1, 'matching._RE_TYPES: definition not found')
+    u = ctx.unit('matching.Regex.glomit')
+    uses = [x for x in u.own_nodes() if isinstance(x, ast.Compare) and any(is_name(c, '_RE_TYPES') for c in x.comparators)]
+    ctx.ob(bool(uses), u, 'the target type is tested against the table: %s' % [norm(x) for x in uses])
+    ok = have >= {'str', 'bytes'}
+    ctx.ob(ok, 'glom/matching.py', 'both text types are valid Regex targets: %s' % sorted(have),
+           '' if ok else 'a %s target is rejected before the pattern is tried' % sorted({'str', 'bytes'} - have))
+    ctx.floor(2)
